@@ -1,19 +1,88 @@
 //! `mc <property> <quick|thorough>` / `mc <property> --replay <file>`
-//! One subcommand per property; see /verif/DESIGN.md.
+//! One module per property; see /verif/DESIGN.md.
+//! A module may also accept `mc <property> --worker ...` for child-process work.
 
+mod c01;
+mod c02;
+mod c03;
+mod c04;
+mod c05;
+mod c06;
+mod c07;
+mod c08;
+mod c09;
+mod c10;
 mod c11_c13;
+mod c14;
+mod c15;
+mod c16;
+mod c17;
 mod c18;
+mod c19;
 #[path = "../../common/ctx.rs"]
 mod ctx;
 mod explore;
+mod frames;
 mod par;
 mod stream_sys;
 
 use ctx::Tier;
+use serde_json::Value;
 
 fn usage() -> ! {
     eprintln!("usage: mc <Cxx> <quick|thorough> | mc <Cxx> --replay <file>");
     std::process::exit(2)
+}
+
+fn run(prop: &str, tier: Tier) -> ! {
+    match prop {
+        "C01" => c01::run(tier),
+        "C02" => c02::run(tier),
+        "C03" => c03::run(tier),
+        "C04" => c04::run(tier),
+        "C05" => c05::run(tier),
+        "C06" => c06::run(tier),
+        "C07" => c07::run(tier),
+        "C08" => c08::run(tier),
+        "C09" => c09::run(tier),
+        "C10" => c10::run(tier),
+        "C11" => c11_c13::run(stream_sys::Which::C11, tier),
+        "C13" => c11_c13::run(stream_sys::Which::C13, tier),
+        "C14" => c14::run(tier),
+        "C15" => c15::run(tier),
+        "C16" => c16::run(tier),
+        "C17" => c17::run(tier),
+        "C18" => c18::run(tier),
+        "C19" => c19::run(tier),
+        _ => {
+            eprintln!("unknown property {prop}");
+            std::process::exit(2)
+        }
+    }
+}
+
+fn replay(prop: &str, case: &Value) -> Result<(), String> {
+    match prop {
+        "C01" => c01::replay(case),
+        "C02" => c02::replay(case),
+        "C03" => c03::replay(case),
+        "C04" => c04::replay(case),
+        "C05" => c05::replay(case),
+        "C06" => c06::replay(case),
+        "C07" => c07::replay(case),
+        "C08" => c08::replay(case),
+        "C09" => c09::replay(case),
+        "C10" => c10::replay(case),
+        "C11" => c11_c13::replay(stream_sys::Which::C11, case),
+        "C13" => c11_c13::replay(stream_sys::Which::C13, case),
+        "C14" => c14::replay(case),
+        "C15" => c15::replay(case),
+        "C16" => c16::replay(case),
+        "C17" => c17::replay(case),
+        "C18" => c18::replay(case),
+        "C19" => c19::replay(case),
+        _ => Err(format!("unknown property {prop}")),
+    }
 }
 
 fn main() {
@@ -22,9 +91,18 @@ fn main() {
         usage();
     }
     let prop = args[1].to_uppercase();
+    if args[2] == "--worker" {
+        // child-process entry points (C02 batches, C10 pullers, ...)
+        match prop.as_str() {
+            "C02" => c02::worker(&args[3..]),
+            "C10" => c10::worker(&args[3..]),
+            _ => usage(),
+        }
+        return;
+    }
     if args[2] == "--replay" {
         let Some(path) = args.get(3) else { usage() };
-        let doc: serde_json::Value = match std::fs::read(path)
+        let doc: Value = match std::fs::read(path)
             .map_err(|e| e.to_string())
             .and_then(|b| serde_json::from_slice(&b).map_err(|e| e.to_string()))
         {
@@ -34,17 +112,7 @@ fn main() {
                 std::process::exit(2)
             }
         };
-        let case = &doc["case"];
-        let r = match prop.as_str() {
-            "C11" => c11_c13::replay(stream_sys::Which::C11, case),
-            "C13" => c11_c13::replay(stream_sys::Which::C13, case),
-            "C18" => c18::replay(case),
-            _ => {
-                eprintln!("no replay for {prop}");
-                std::process::exit(2)
-            }
-        };
-        match r {
+        match replay(&prop, &doc["case"]) {
             Ok(()) => {
                 println!("replay: property held on this case");
                 std::process::exit(0)
@@ -60,13 +128,5 @@ fn main() {
         "thorough" => Tier::Thorough,
         _ => usage(),
     };
-    match prop.as_str() {
-        "C11" => c11_c13::run(stream_sys::Which::C11, tier),
-        "C13" => c11_c13::run(stream_sys::Which::C13, tier),
-        "C18" => c18::run(tier),
-        _ => {
-            eprintln!("unknown property {prop}");
-            std::process::exit(2)
-        }
-    }
+    run(&prop, tier)
 }
